@@ -21,3 +21,6 @@ type Check struct {
 var Checks = map[string]*Check{}
 
 func Register(c *Check) { Checks[c.ID] = c }
+
+// Tier is the tier of the driver, for worker processes.
+var Tier = "quick"
